@@ -2,6 +2,7 @@ import Rp2.Gen.Loops
 import Rp2.Proofs.DictLemmas
 import Rp2.Proofs.QuantGrid
 import Rp2.Model.Report
+import Rp2.Props.Tables.Formulas
 /-! # Translated loops = model
 `Gen/Loops.lean` is produced on every run by `harness/gen_loops.py` from the Python AST of `EntrySetIterator.__next__` and of the replay loop of
 `BalanceSet.__init__`.  The theorems say that what those loops compute is what the hand-written model computes: the window `viewOf` and the
@@ -415,5 +416,88 @@ theorem replay_order_and_cut : replayOrder = ["in", "intra", "out"] ∧ ∀ d t 
     simp [h, this]
   · have : d > t := by omega
     simp [h, this]
+
+
+/-! ## the loop of `_create_yearly_gain_loss_list` -/
+
+/-- **the key of a summary line, as the source computes it, is the model's `yearKey`**: local year of the taxable event, its type, long / short
+(for every fraction the engine can produce: a lot-less fraction is an earning) -/
+theorem yearly_key (period : Int) (f : Fraction) (h : lotlessDisposal f = false) : yearlyKey period f = some (yearKey period f) := by
+  unfold yearlyKey
+  rw [gainloss_long, h]
+  rfl
+
+/-- **the running sums of a summary line, as the source computes them, are the model's `YSums.add … (yearVal f)`** -/
+theorem yearly_add (v : YSums) (f : Fraction) (h : lotlessDisposal f = false) : yearlyAdd v f = some (YSums.add v (yearVal f)) := by
+  unfold yearlyAdd
+  rw [gainloss_proceeds, gainloss_cost, gainloss_gain, h]
+  rfl
+
+theorem yearly_zero : yearlyZero = YSums.zero := rfl
+
+theorem yearly_cut (d t : Int) : yearlyStops d t = !decide (d ≤ t) := by
+  unfold yearlyStops
+  by_cases h : d ≤ t
+  · have : ¬ d > t := by omega
+    simp [h, this]
+  · have : d > t := by omega
+    simp [h, this]
+
+/-- `d[k] = v` on an insertion-ordered dictionary with arbitrary keys -/
+def setKey {κ α : Type} [DecidableEq κ] : List (κ × α) → κ → α → List (κ × α)
+  | [], k, v => [(k, v)]
+  | (k', s) :: t, k, v => if k' = k then (k', v) :: t else (k', s) :: setKey t k v
+/-- `d.get(k, dflt)` / the value `d.setdefault(k, dflt)` returns -/
+def lookupD {κ α : Type} [DecidableEq κ] (d : List (κ × α)) (k : κ) (dflt : α) : α := ((d.find? (fun p => p.1 = k)).map (·.2)).getD dflt
+
+/-- the model's `bump` is "read with a default, add, store" -/
+theorem bump_eq_setKey {κ α : Type} [DecidableEq κ] (add : α → α → α) (zero : α) (acc : List (κ × α)) (k : κ) (x : α) :
+    bump add zero acc k x = setKey acc k (add (lookupD acc k zero) x) := by
+  induction acc with
+  | nil => rfl
+  | cons p t ih =>
+    obtain ⟨k', s⟩ := p
+    by_cases h : k' = k
+    · simp [bump, setKey, lookupD, h]
+    · simp only [bump, setKey, h, if_false]
+      rw [ih]
+      congr 2
+      simp [lookupD, h]
+
+/-- one round of the loop on the insertion-ordered dictionary `summaries`: `value = summaries.setdefault(key, zero)`, then
+`summaries[key] = new amounts` (the statement shapes the translator insists on), with the key, the default and the new amounts as translated -/
+def yearlyRound (period : Int) (acc : List (YKey × YSums)) (f : Fraction) : Option (List (YKey × YSums)) := do
+  let key ← yearlyKey period f
+  let value := lookupD acc key yearlyZero
+  let new ← yearlyAdd value f
+  pure (setKey acc key new)
+
+theorem yearly_round (period : Int) (acc : List (YKey × YSums)) (f : Fraction) (h : lotlessDisposal f = false) :
+    yearlyRound period acc f = some (bump YSums.add YSums.zero acc (yearKey period f) (yearVal f)) := by
+  unfold yearlyRound
+  rw [yearly_key period f h]
+  simp only [Option.bind_eq_bind, Option.bind_some, bind, Option.bind]
+  rw [yearly_add _ f h, bump_eq_setKey, yearly_zero]
+  rfl
+
+/-- **C06, tie to the source**: the loop of `_create_yearly_gain_loss_list`, with key, default and sums as translated from the Python source on
+this run, computes the model's `yearly` (the insertion-ordered group-by whose lines `lines_are_sums` is about), for every list of fractions the
+engine can produce (a fraction without a lot is an earning). -/
+theorem yearly_loop_is_model (period : Int) : ∀ (fs : List Fraction) (acc : List (YKey × YSums)), (∀ f ∈ fs, lotlessDisposal f = false) →
+    fs.foldlM (yearlyRound period) acc = some (fs.foldl (fun acc f => bump YSums.add YSums.zero acc (yearKey period f) (yearVal f)) acc) := by
+  intro fs
+  induction fs with
+  | nil => intro acc _; rfl
+  | cons f fs ih =>
+    intro acc h
+    simp only [List.foldlM_cons, List.foldl_cons]
+    rw [yearly_round period acc f (h f List.mem_cons_self)]
+    exact ih _ (fun g hg => h g (List.mem_cons_of_mem _ hg))
+
+theorem yearly_loop_is_yearly (period : Int) (fs : List Fraction) (h : ∀ f ∈ fs, lotlessDisposal f = false) :
+    fs.foldlM (yearlyRound period) [] = some (yearly period fs) := by
+  rw [yearly_loop_is_model period fs [] h]
+  unfold yearly group
+  rw [List.foldl_map]
 
 end Rp2.Tables
